@@ -25,7 +25,8 @@ def genparams(need_fetch=True):
         return False, out
     gen = os.path.join(vlib.coq_dir(PROJ), "theories", "Gen")
     results = {}
-    for section, fn in (("sched-api", "ParamsApi.v"), ("sched-fetch", "ParamsFetch.v")):
+    # trigsrc: quartz/trigger.go's SimpleTrigger / RunOnceTrigger translated from source (TrigTie.v, used by Props/C04.v)
+    for section, fn in (("sched-api", "ParamsApi.v"), ("sched-fetch", "ParamsFetch.v"), ("trigsrc", "TrigSrc.v")):
         rc, out = vlib.run([binp, "-repo", vlib.REPO, section])
         results[section] = (rc, out)
         if rc == 0:
@@ -34,6 +35,8 @@ def genparams(need_fetch=True):
         return False, results["sched-api"][1]
     if need_fetch and results["sched-fetch"][0] != 0:
         return False, results["sched-fetch"][1]
+    if need_fetch and results["trigsrc"][0] != 0:
+        return False, results["trigsrc"][1]
     return True, ""
 
 
